@@ -60,7 +60,12 @@ fn ops_req(big: bool) -> BoxedStrategy<Req> {
     )
         .prop_map(|(mut ops, disc, batch)| {
             if let Some(d) = disc {
-                ops.push((0, OpSpec::Disconnect(d)));
+                // usually the last request; in a batch (all futures polled before the context
+                // runs) sometimes not: what was submitted behind the DISCONNECT is written, in
+                // order, by the next connection of the same Context
+                let n = ops.len();
+                let at = if batch && n >= 2 && d.reason_string.as_ref().map(|s| s.len()).unwrap_or(0) % 3 == 1 { n - 1 } else { n };
+                ops.insert(at, (0, OpSpec::Disconnect(d)));
             }
             Req::Ops { ops, batch }
         })
@@ -297,7 +302,21 @@ fn execute(req: &Req, plan: &WritePlan) -> Result<RunResult, String> {
             }
             settle(&mut w, plan, false);
             let stuck = w.writer.blocked() || w.budget_exhausted;
-            let wire = w.writer.data()[off..].to_vec();
+            let mut wire = w.writer.data()[off..].to_vec();
+            // requests queued behind a DISCONNECT that has been written: the Context is connected
+            // again and serves them then
+            let dpos = ops.iter().position(|(_, s)| matches!(s, OpSpec::Disconnect(_)));
+            if let Some(dp) = dpos {
+                if dp + 1 < ops.len() && !stuck && w.run_result == Some(RunRes::Ok) && first_panic(&w).is_none() && w.set_up_again() {
+                    connect_and_run(&mut w, ConnectSpec::default(), &default_connack(), &WritePlan::default())?;
+                    plan.install(&w);
+                    settle(&mut w, plan, false);
+                    // everything on the new wire behind its CONNECT
+                    let all = w.writer.data().to_vec();
+                    let skip = rc::split_frame(&all).map(|x| x.2).unwrap_or(0);
+                    wire.extend_from_slice(&all[skip..]);
+                }
+            }
             // everything the client writes is a packet of its own accord or an answer: one inbound
             // QoS 1 PUBLISH now draws exactly one PUBACK and nothing else
             let mut probe_wire = None;
